@@ -62,6 +62,12 @@ fn run_tree(t: &Tree, depth: u32, o: &mut Obs) -> u64 {
         if interrupts::are_enabled() {
             o.are_enabled_wrong_inside += 1;
         }
+        // a body may change other RFLAGS bits (clac inside a stac region, cld, toggling ID ...) - just not IF. In single-step
+        // mode the emulated pushfq reports `pushfq_or`; some bodies clear part of it
+        if t.id & 3 == 1 {
+            let regs = trapemu::regs();
+            regs.pushfq_or &= !(t.id >> 2) | 0x200;
+        }
         for k in t.kids.iter() {
             run_tree(k, depth + 1, o);
             // a nested call must leave the flag clear for the rest of the enclosing body
@@ -241,6 +247,42 @@ leaf_with_locals!(leaf_typed_8, 8, x86_64::registers::rflags::read().bits());
 leaf_with_locals!(leaf_wi_8, 8, interrupts::without_interrupts(|| 5u64));
 leaf_with_locals!(leaf_wi_3, 3, interrupts::without_interrupts(|| 5u64));
 
+static SEEN_IF_INSIDE: core::sync::atomic::AtomicU8 = core::sync::atomic::AtomicU8::new(9);
+fn probe_fn_item() -> u64 {
+    SEEN_IF_INSIDE.store(trapemu::regs().iflag as u8, Ordering::Relaxed);
+    0x1234_5678
+}
+
+/// callables that capture nothing (a `fn` item, a closure touching only statics) are callables like any other: they run
+/// with the flag clear, between cli and sti when it was set
+fn zero_sized_callables(rep: &mut Report, initial_if: bool) {
+    let regs = trapemu::regs();
+    regs.mirror_if = true;
+    for which in ["fn-item", "non-capturing-closure"] {
+        regs.set_if(initial_if);
+        SEEN_IF_INSIDE.store(9, Ordering::Relaxed);
+        let (got, evs) = trapemu::trapped(|| {
+            if which == "fn-item" {
+                interrupts::without_interrupts(probe_fn_item)
+            } else {
+                interrupts::without_interrupts(|| {
+                    SEEN_IF_INSIDE.store(trapemu::regs().iflag as u8, Ordering::Relaxed);
+                    0x1234_5678u64
+                })
+            }
+        });
+        rep.eval();
+        let seen = SEEN_IF_INSIDE.load(Ordering::Relaxed);
+        let kinds: Vec<K> = evs.iter().map(|e| e.kind).collect();
+        let ok_events = if initial_if { kinds == vec![K::Cli, K::Sti] } else { kinds.is_empty() };
+        if got != 0x1234_5678 || seen != 0 || !ok_events || trapemu::regs().iflag != initial_if {
+            let what = if seen == 1 { "closure-ran-with-interrupts-enabled" } else if seen == 9 { "closure-not-run" } else if !ok_events { "unexpected-instruction-sequence" } else { "flag-or-result-wrong" };
+            rep.violation(&format!("without_interrupts|{}|IF={}|{}", which, initial_if as u8, what), J::obj(vec![("events", evs_json(&evs)), ("flag_seen_inside", J::U(seen as u64)), ("profile", J::s(crate::util::profile_name()))]));
+        }
+        rep.class(&format!("zero-sized-callable|{}|IF={}", which, initial_if as u8));
+    }
+}
+
 fn callers_locals(rep: &mut Report, r: &mut Rng) {
     let fns: [(&str, usize, fn(u64) -> (u64, u64)); 14] = [
         ("are_enabled", 1, leaf_ae_1), ("are_enabled", 2, leaf_ae_2), ("are_enabled", 3, leaf_ae_3), ("are_enabled", 4, leaf_ae_4), ("are_enabled", 8, leaf_ae_8), ("are_enabled", 15, leaf_ae_15),
@@ -271,6 +313,7 @@ pub fn run(a: &Args, rep: &mut Report) {
         for _ in 0..50 {
             simple_cases(rep, i);
         }
+        zero_sized_callables(rep, i);
     }
     callers_locals(rep, &mut r);
     let n = a.budget(4_000, 2_000_000);
